@@ -111,7 +111,7 @@ CLAIMS['C10']['text'] = ('FULL for the order part of P8E0 and P16E1, symbolic fo
     '(2^16 .. 2^64 pairs; 2^96 triples for clamp) lt/le/gt/ge/eq/cmp, PartialEq::eq, min, max, clamp (under its asserted precondition min <= max; it panics exactly when max < min), neg, abs, signum, is_sign_*, is_zero, is_nar/is_nan/is_finite/is_infinite '
     'are exactly the signed-integer comparison / two\'s-complement negation of the bit patterns and return one of their inputs or an exact constant; the same for the PxE1<N>/PxE2<N> comparison wrappers for every width argument N. '
     '(2) Props/C10Mono.lean: the signed-integer order of patterns IS the order of the represented reals for P8E0 and P16E1 (successor sweep over all 2^8 / 2^16 patterns by native_decide, lifted to all pairs by induction + transitivity); NaR is the bottom and has no value. '
-    '(3) exhaustive Spec theorems for all P8E0 pairs / P16E1 unary (Props/C10Fin.lean). PARTIAL: monotonicity of the 32-bit formats (needs a 2^31-step sweep or the closed-form proof); copysign and classify only on the finite spaces; explored for all 31 PxE widths.')
+    '(3) exhaustive Spec theorems for all P8E0 pairs / P16E1 unary (Props/C10Fin.lean). PARTIAL: monotonicity of the 32-bit formats (needs a 2^31-step sweep or the closed-form proof); copysign only on the finite spaces; classify (not translated: implementation against the specification on all P8E0/P16E1 patterns, and an exhaustive scan of all 2^32 P32E2 patterns); explored for all 31 PxE widths.')
 CLAIMS['C10']['technique'] = 'Lean 4 symbolic theorems (all operand pairs, no enumeration) + successor-sweep monotonicity with inductive lift + native_decide exhaustive theorems; differential correspondence'
 
 
